@@ -80,8 +80,28 @@ class Ctx:
         return self.tier == "quick"
 
     # ------------------------------------------------------------------ build
+    def harness_dir(self):
+        """The harness crate.  Registered checks always use /verif/harness (path
+        dependency on /repo).  For negative controls during development,
+        VERIF_REPO=<scratch worktree> builds a private copy of the harness against
+        that tree instead (never used by MANIFEST commands)."""
+        alt = os.environ.get("VERIF_REPO")
+        if not alt or os.path.abspath(alt) == REPO:
+            return HARNESS
+        h = hashlib.sha1(os.path.abspath(alt).encode()).hexdigest()[:10]
+        d = "/tmp/gvh-alt-" + h
+        os.makedirs(d, exist_ok=True)
+        for name in ("src", ".cargo"):
+            shutil.rmtree(os.path.join(d, name), ignore_errors=True)
+            shutil.copytree(os.path.join(HARNESS, name), os.path.join(d, name))
+        shutil.copy(os.path.join(HARNESS, "Cargo.lock"), d)
+        t = open(os.path.join(HARNESS, "Cargo.toml")).read().replace('path = "/repo"', 'path = "%s"' % os.path.abspath(alt))
+        open(os.path.join(d, "Cargo.toml"), "w").write(t)
+        return d
+
     def build(self, binname, profile="dev"):
         """cargo build of one harness binary against /repo's working tree."""
+        HARNESS = self.harness_dir()
         cmd = ["cargo", "build", "--offline", "--bin", binname]
         if profile == "release":
             cmd.append("--release")
@@ -118,8 +138,7 @@ class Ctx:
         jto = "-Xss1g"
         if deque:
             jto += " -Dtlc2.tool.queue.IStateQueue=StateDeque"
-        if xmx:
-            jto += " -Xmx" + xmx
+        jto += " -Xmx" + (xmx or os.environ.get("VERIF_TLC_XMX", "6g"))
         e["JAVA_TOOL_OPTIONS"] = jto
         if env:
             e.update({k: str(v) for k, v in env.items()})
